@@ -38,6 +38,37 @@ def lake_build(targets=('Sismic', 'driver')):
     return _built[key]
 
 
+def import_closure(module):
+    """the project's own modules `module` depends on (read from the `import` lines)"""
+    seen, todo = [], [module]
+    while todo:
+        m = todo.pop()
+        if m in seen or not m.startswith('Sismic'):
+            continue
+        path = os.path.join(LEAN, *m.split('.')) + '.lean'
+        if not os.path.exists(path):
+            continue
+        seen.append(m)
+        for line in open(path):
+            line = line.strip()
+            if line.startswith('import '):
+                todo.append(line.split()[1])
+            elif line and not line.startswith('--') and not line.startswith('/-') and not line.startswith('import'):
+                if not line.startswith('import'):
+                    pass
+    return sorted(seen)
+
+
+def leanchecker(prop):
+    """independent re-check of the compiled proofs of the property's theorems and everything of
+    ours they depend on (thorough tier). Returns (ok, n_modules, seconds, output)."""
+    import time as _t
+    mods = import_closure('Sismic.Props.' + prop)
+    t0 = _t.time()
+    rc, out = sh(['lake', 'env', 'leanchecker'] + mods, cwd=LEAN, timeout=3600)
+    return rc == 0, len(mods), round(_t.time() - t0, 1), out[-1500:]
+
+
 def strip_comments(src):
     # block comments (possibly nested) and line comments
     out = []
